@@ -4,6 +4,7 @@
 //! traces that TLC validates against the TLA+ specification in /verif/spec.
 
 mod addr;
+mod consts;
 mod cpu;
 mod cpufam;
 mod gdt;
@@ -79,6 +80,7 @@ fn main() {
         },
         "idt" => idt::run_idt(&mut o, args.seed, args.n),
         "idt13" => idt::run_idt13(&mut o, args.seed, args.n),
+        "consts" => consts::run_consts(&mut o, args.seed, args.n),
         "gdt" => gdt::run_gdt(&mut o, args.seed, args.n),
         "desc" => gdt::run_desc(&mut o, args.seed, args.n),
         "pte" => pte::run_pte(&mut o, args.seed, args.n),
